@@ -14,6 +14,7 @@ CONSTANTS
   RYminMode <- RYminModes
   PMaxN = 12
   PMaxW = 16
+  PMaxP = 16
 INVARIANT TypeWalk
 INVARIANT CycleIdentity
 INVARIANT RefAgree
